@@ -52,13 +52,21 @@ Pull(stages, s, k) ==
                ELSE LET r == app(p.s, 1, <<p.it[2]>>)
                     IN IF IsErr(r.v) THEN PR(r.s, Boom) ELSE IF Truthy(r.v) THEN PR(r.s, p.it) ELSE Pull(stages, r.s, k)
       [] f = "selectMany" ->
-            IF me.buf # <<>> THEN PR(SetSt(s, k, [me EXCEPT !.buf = Tail(@)]), Item(Head(me.buf)))
-            ELSE LET p == up(s)
-                 IN IF p.it[1] # "item" THEN p
-                    ELSE LET r == app(p.s, 1, <<p.it[2]>>)
-                             items == IF IsColl(r.v) THEN r.v[2] ELSE <<r.v>>
-                         IN IF IsErr(r.v) THEN PR(r.s, Boom)
-                            ELSE Pull(stages, SetSt(r.s, k, [r.s.st[k] EXCEPT !.buf = items]), k)
+            \* the selector's collection is consumed lazily: when it is itself `<finite source>.select(lambda)` the inner lambda
+            \* runs only for the inner elements that are emitted (buf holds the raw inner elements still to come)
+            LET lazyInner == a[1][1] = "mcall" /\ a[1][3] = "select" /\ Len(a[1][4]) = 1
+            IN IF me.buf # <<>> THEN
+                    LET s1 == SetSt(s, k, [me EXCEPT !.buf = Tail(@)])
+                    IN IF ~lazyInner THEN PR(s1, Item(Head(me.buf)))
+                       ELSE LET r == Apply(Lam(a[1][4][1]), <<Head(me.buf)>>, s1.log)
+                            IN IF IsErr(r.v) THEN PR([s1 EXCEPT !.log = r.log], Boom) ELSE PR([s1 EXCEPT !.log = r.log], Item(r.v))
+               ELSE LET p == up(s)
+                    IN IF p.it[1] # "item" THEN p
+                       ELSE LET r == IF lazyInner THEN Apply(Lam(a[1][2]), <<p.it[2]>>, p.s.log) ELSE Apply(Lam(a[1]), <<p.it[2]>>, p.s.log)
+                                s2 == [p.s EXCEPT !.log = r.log]
+                                items == IF IsColl(r.v) THEN r.v[2] ELSE <<r.v>>
+                            IN IF IsErr(r.v) THEN PR(s2, Boom)
+                               ELSE Pull(stages, SetSt(s2, k, [s2.st[k] EXCEPT !.buf = items]), k)
       [] f = "skip" ->
             \* r = number already skipped
             IF me.r < ConstI(a[1]) THEN
@@ -155,19 +163,27 @@ Pull(stages, s, k) ==
             IN IF me.flag THEN PR(s, End) ELSE Fill(s, <<>>)
       [] f = "memorize" -> up(s)
       [] f = "join" ->
-            \* outer item held in acc (flag = holding), r = next index into the inner list
-            LET inner == a[1][2][2]
+            \* outer item held in acc (flag = holding), r = next index into the inner collection.  The inner collection is
+            \* memorised lazily: when it is `<list>.select(lambda)` its elements are computed on first use only (seen = the
+            \* computed prefix) - a join that is not drained never runs the lambda for the rest.
+            LET lazyInner == a[1][1] = "mcall" /\ a[1][3] = "select" /\ Len(a[1][4]) = 1
+                raw == IF lazyInner THEN a[1][2][2][2] ELSE a[1][2][2]
             IN IF ~me.flag THEN
                     LET p == up(s)
                     IN IF p.it[1] # "item" THEN p
                        ELSE Pull(stages, SetSt(p.s, k, [p.s.st[k] EXCEPT !.flag = TRUE, !.acc = p.it[2], !.r = 0]), k)
-               ELSE IF me.r >= Len(inner) THEN Pull(stages, SetSt(s, k, [me EXCEPT !.flag = FALSE]), k)
-               ELSE LET y == inner[me.r + 1]
-                        s1 == SetSt(s, k, [me EXCEPT !.r = @ + 1])
-                        c == app(s1, 2, <<me.acc, y>>)
-                    IN IF IsErr(c.v) THEN PR(c.s, Boom)
-                       ELSE IF ~Truthy(c.v) THEN Pull(stages, c.s, k)
-                       ELSE LET v == app(c.s, 3, <<me.acc, y>>) IN IF IsErr(v.v) THEN PR(v.s, Boom) ELSE PR(v.s, Item(v.v))
+               ELSE IF me.r >= Len(raw) THEN Pull(stages, SetSt(s, k, [me EXCEPT !.flag = FALSE]), k)
+               ELSE LET known == ~lazyInner \/ me.r < Len(me.seen)
+                        yr == IF ~lazyInner THEN [v |-> raw[me.r + 1], log |-> s.log]
+                              ELSE IF known THEN [v |-> me.seen[me.r + 1], log |-> s.log]
+                              ELSE Apply(Lam(a[1][4][1]), <<raw[me.r + 1]>>, s.log)
+                        y == yr.v
+                        s1 == SetSt([s EXCEPT !.log = yr.log], k, [me EXCEPT !.r = @ + 1, !.seen = IF known THEN @ ELSE Append(@, y)])
+                    IN IF IsErr(y) THEN PR(s1, Boom)
+                       ELSE LET c == app(s1, 2, <<me.acc, y>>)
+                            IN IF IsErr(c.v) THEN PR(c.s, Boom)
+                               ELSE IF ~Truthy(c.v) THEN Pull(stages, c.s, k)
+                               ELSE LET v == app(c.s, 3, <<me.acc, y>>) IN IF IsErr(v.v) THEN PR(v.s, Boom) ELSE PR(v.s, Item(v.v))
       [] OTHER -> PR(s, <<"unmodelled">>)
 
 \* drain stage k completely (finalisation of a lazy result)
